@@ -357,6 +357,11 @@ type expander struct {
 	validated     int
 	lookahead     int // states in which electableWithoutCommitted held
 	completions   int // completion suffixes tried
+	// campaign(n) executed on a node whose apply backlog held committed conf changes / of
+	// those, refused by the library. A refused campaign changes nothing, so it never becomes
+	// a recorded transition (the successor is dominated by its parent); counted here instead.
+	campBacklog int
+	campRefused int
 }
 
 // one memo per worker process and box
@@ -445,6 +450,8 @@ func worker(tb []byte, progress func()) []byte {
 	w.u32(uint32(workerSim.ThawFeeds - before.ThawFeeds))
 	w.u32(uint32(x.validated))
 	w.u32(uint32(x.lookahead))
+	w.u32(uint32(x.campBacklog))
+	w.u32(uint32(x.campRefused))
 	vb, _ := json.Marshal(x.viols)
 	w.u32(uint32(len(vb)))
 	w.b = append(w.b, vb...)
@@ -511,6 +518,12 @@ func (x *expander) expand(s *taskState, ref int32, progress func()) stateRes {
 				continue
 			}
 			res.trans++
+			if d.flags&fCampaignBacklog != 0 {
+				x.campBacklog++
+				if d.flags&fCampaignRefused != 0 {
+					x.campRefused++
+				}
+			}
 			if len(d.viol) > 0 {
 				for _, v := range d.viol {
 					x.viols = append(x.viols, workerViol{Path: append(append([]Event(nil), path...), cd.ev), Kind: v.Kind, Detail: v.Detail, Func: v.Func})
@@ -561,7 +574,10 @@ func (x *expander) expand(s *taskState, ref int32, progress func()) stateRes {
 	}
 }
 
-type simStats struct{ Execs, Hits, Thaws, ThawFeeds, Validated, Lookahead int }
+type simStats struct {
+	Execs, Hits, Thaws, ThawFeeds, Validated, Lookahead int
+	CampBacklog, CampRefused                            int `json:"-"`
+}
 
 // complete is a goal-directed suffix: node `id` lacks committed entry `idx` but no voting rule
 // protects against it being elected, so try to elect it — lose everything in flight, heal the
@@ -656,6 +672,7 @@ func decodeResult(out []byte) ([]stateRes, []rec, []workerViol, simStats) {
 	}
 	var ss simStats
 	ss.Execs, ss.Hits, ss.Thaws, ss.ThawFeeds, ss.Validated, ss.Lookahead = int(r.u32()), int(r.u32()), int(r.u32()), int(r.u32()), int(r.u32()), int(r.u32())
+	ss.CampBacklog, ss.CampRefused = int(r.u32()), int(r.u32())
 	vl := int(r.u32())
 	var viols []workerViol
 	json.Unmarshal(r.b[r.p:r.p+vl], &viols)
